@@ -128,6 +128,9 @@ func runC19(r *run) {
 		}
 		emit(caseT{"register", []string{hx("upper")}})
 		emit(caseT{"register", []string{hx("for")}})
+		for i := 0; i < 3; i++ {
+			emit(caseT{"register2", []string{hx(fmt.Sprintf("verifdup%d", i))}})
+		}
 	}
 	driveCases(r, gen, execC19)
 	r.finish(nil)
@@ -175,7 +178,7 @@ func execC19(r *run, c caseT) {
 				rejected = "registering an existing filter name twice was not refused"
 			}
 		}
-		for _, tn := range pongo2.VerifRegisteredTags() {
+		for _, tn := range registeredTags() {
 			if tn == name {
 				e2 := pongo2.RegisterTag(name, nil)
 				obs += fmt.Sprintf("tag-refused:%v", e2 != nil)
@@ -188,6 +191,39 @@ func execC19(r *run, c caseT) {
 		r.nontrivial("register:" + name)
 		if rejected != "" {
 			r.reject(id, rejected, map[string]any{"name": name})
+		}
+		return
+	case "register2":
+		// a name that is taken stays taken, whatever is offered for it: the very same function
+		// again, or another function made by the same constructor
+		name := unhx(c.args[0])
+		mkF := func(tag string) pongo2.FilterFunction {
+			return func(in *pongo2.Value, p *pongo2.Value) (*pongo2.Value, *pongo2.Error) {
+				return pongo2.AsValue(tag), nil
+			}
+		}
+		mkT := func(tag string) pongo2.TagParser {
+			return func(doc *pongo2.Parser, start *pongo2.Token, args *pongo2.Parser) (pongo2.INodeTag, *pongo2.Error) {
+				return &textNode{tag}, nil
+			}
+		}
+		f1, t1 := mkF("first"), mkT("first")
+		var steps []string
+		if !pongo2.FilterExists(name) {
+			steps = append(steps, fmt.Sprintf("filter-new:%v", pongo2.RegisterFilter(name, f1) == nil))
+			steps = append(steps, fmt.Sprintf("tag-new:%v", pongo2.RegisterTag(name, t1) == nil))
+		}
+		steps = append(steps, fmt.Sprintf("filter-same-refused:%v", pongo2.RegisterFilter(name, f1) != nil))
+		steps = append(steps, fmt.Sprintf("filter-sibling-refused:%v", pongo2.RegisterFilter(name, mkF("second")) != nil))
+		steps = append(steps, fmt.Sprintf("tag-same-refused:%v", pongo2.RegisterTag(name, t1) != nil))
+		steps = append(steps, fmt.Sprintf("tag-sibling-refused:%v", pongo2.RegisterTag(name, mkT("second")) != nil))
+		out, err := pongo2.RenderTemplateString("{{ 1|"+name+" }}{% "+name+" %}", nil)
+		steps = append(steps, fmt.Sprintf("use:%s:%v", out, err == nil))
+		obs := strings.Join(steps, " ")
+		id := r.emit(c.op, c.args, obs)
+		r.nontrivial("register2:" + name)
+		if strings.Contains(obs, "refused:false") || strings.Contains(obs, "new:false") || !strings.Contains(obs, "use:firstfirst:true") {
+			r.reject(id, "a registered filter or tag name could be registered again (or the first registration is no longer what the name means)", map[string]any{"name": name, "observed": obs})
 		}
 		return
 	case "reentrant":
@@ -329,4 +365,11 @@ func execC19(r *run, c caseT) {
 	if o.obs != wobs {
 		r.reject(id, "the filter chain in the template does not equal the composition of ApplyFilter calls", map[string]any{"template": src, "observed": o.obs, "expected": wobs})
 	}
+}
+
+type textNode struct{ s string }
+
+func (n *textNode) Execute(ctx *pongo2.ExecutionContext, w pongo2.TemplateWriter) *pongo2.Error {
+	_, _ = w.WriteString(n.s)
+	return nil
 }
